@@ -772,6 +772,22 @@ fn gen_two_class(r: &mut Xo, n: usize, p: usize) -> (Vec<Vec<f64>>, Vec<f64>, St
         })
         .collect();
     let mut kind = layout.to_string();
+    if p > 1 && r.chance(0.08) {
+        // a constant feature
+        let col = r.below(p as u64) as usize;
+        for row in x.iter_mut() {
+            row[col] = 1.0;
+        }
+        kind.push_str("+constant-column");
+    }
+    if r.chance(0.03) {
+        // perfectly ambiguous input: every row identical (decision values are exactly 0 by symmetry)
+        let first = x[0].clone();
+        for row in x.iter_mut() {
+            *row = first.clone();
+        }
+        kind.push_str("+all-rows-identical");
+    }
     if r.chance(0.2) && n >= 4 {
         // exact duplicate rows, some with conflicting labels
         let dups = r.usize_in(1, (n / 3).max(1));
